@@ -476,7 +476,7 @@ def m_permits_restored(run):
     f = []
     from harness import names
     m = run.manager
-    cfg = getattr(run, 'config', None) or m._config
+    cfg = getattr(run, 'requested', None) or getattr(run, 'config', None) or m._config
     stages = names.manager_stages(m)
     for nm, role, cap in (('submission', 'sub', cfg.max_submission_queue_size),
                           ('request', 'req', cfg.max_request_queue_size),
